@@ -169,7 +169,7 @@ func (s *ssim) directRequest() {
 		k.Fault("repeated-request")
 	}
 	for i := 0; i < reps; i++ {
-		resp, err := sv.svc.CreateBlockResponse(who, req)
+		resp, err := sv.svc.CreateBlockResponse(who, s.viaWire(req))
 		k.Event("request", "srv%d %s -> %v", sv.id, reqStr(req), err != nil)
 		if err == nil {
 			s.checkServed(sv, req, resp, "byz")
